@@ -187,6 +187,8 @@ def main(run):
         cfg = gen_cfg(rnd, rnd.choice(["sage", "pfi"]), exact=False)
         if cfg["imputer"] not in ("joint", "product", "default"):
             cfg["imputer"] = rnd.choice(["joint", "product", "default"])
+        if cfg["storage"][0] == "library-default":
+            cfg["storage"] = ("uniform", 5, False)
         seed = rnd.randrange(2 ** 31)
         try:
             sc = Scenario(cfg, seed)
